@@ -12,7 +12,11 @@ THEOREMS = [
     "C17.q_in_range", "C17.q_mono", "C17.q_dq_ideal", "C17.dq_q_ideal", "C17.cover_ideal",
     "C17.zp_in_range", "C17.q_dq_rounded", "C17.dq_q_rounded",
     "C17.q_in_range_64", "C17.saturates_high_64", "C17.d34_pinned_wraps",
-]
+            # C17d: the BLOCKWISE (emulated sub-channel) arithmetic, modelled in QModel/Blockwise.lean (finding D41 as a theorem)
+            "C17.sym_half_step_ideal", "C17.sym_half_step_f32", "C17.blockwise_ok_iff", "C17.blockwise_error_class", "C17.blockwise_shapes",
+            "C17.blockwise_layout", "C17.blockwise_scale_is_row_scale", "C17.blockwise_is_channelwise", "C17.channelwise_is_materialize",
+            "C17.blockwise_half_step_ideal", "C17.blockwise_half_step_f32", "C17.ref_half_step_ideal", "C17.ref_half_step_f32",
+            "C17.blockwise_granularity_not_honoured"]
 
 
 def one_param_case(ctx, drv, rng, bits, sym, shape=None, dtype=np.float32):
@@ -165,7 +169,7 @@ def run(ctx):
                 "bit-exactly with the Lean model and checked by the C17 oracle; distinct = distinct canonical inputs")
     ctx.explanation = ("Theorems (QProps/C17.lean) are proved for all rationals / all integer codes over the model; the float32 claims use the "
                        "proved standard-model properties of the model's rounding operator. Correspondence ties the model to the code bit for bit.")
-    common.proof_side(ctx, THEOREMS, modules=["QProps.C17", "QProps.C17b", "QProps.C17c"])
+    common.proof_side(ctx, THEOREMS, modules=["QProps.C17", "QProps.C17b", "QProps.C17c", "QProps.C17d"])
     drv = common.Driver()
     rng = ctx.rng
     n_par = 700 if ctx.tier == "quick" else 4000
@@ -199,6 +203,13 @@ def run(ctx):
         if ctx.left() < 10:
             break
         bias_case(ctx, drv, rng)
+    # the BLOCKWISE arithmetic (QModel/Blockwise.lean) against the real functions, bit-exactly
+    if ctx.left() > 25:
+        from .. import fam_blockwise as fb
+        try:
+            fb.cmp_blockwise(ctx, 150 if ctx.tier == "quick" else 2500)
+        except Exception as e:  # noqa: BLE001
+            ctx.disagree("blockwise", {}, f"the family could not run ({type(e).__name__}: {str(e)[:160]})", "runs")
     drv.close()
     return common.finish(ctx)
 
